@@ -70,7 +70,7 @@ class C17(Check):
     required_probes = [
         "crash_points_enumerated", "lost_writes_enumerated", "load_rejected_incomplete", "load_accepted_complete",
         "special_values", "markers_eq_dim", "overwrite", "foreign_file", "param_mismatch_reader", "rod_io", "eulerian_io",
-        "grid_without_fields", "recovery_after_failed_save", "post_hoc_delete", "reader_object_reused", "file_name_without_h5_suffix",
+        "grid_without_fields", "recovery_after_failed_save", "post_hoc_delete", "reader_object_reused", "file_name_without_h5_suffix", "non_c_contiguous_registered_arrays",
     ]
     tiers = {
         "quick": {"runs": 640, "batch": 8, "timeout": 300},
@@ -88,7 +88,7 @@ class C17(Check):
     # ------------------------------------------------------------------ program
     def _draw_spec(self, rng, dim, used_grid_names):
         cls = prng.weighted_choice(rng, [("IO", 6), ("EulerianFieldIO", 2), ("CosseratRodIO", 2)])
-        spec = {"cls": cls, "grid": None, "efields": [], "lgrids": [], "lag_f64": rng.random() < 0.3}
+        spec = {"cls": cls, "grid": None, "efields": [], "lgrids": [], "lag_f64": rng.random() < 0.3, "layout": prng.weighted_choice(rng, [("C", 6), ("F", 1), ("window", 1), ("component_last", 1)])}
         names = NAMES[:]
         rng.shuffle(names)
         if cls == "CosseratRodIO":
@@ -98,6 +98,8 @@ class C17(Check):
             size = [rng.randint(2, 7) for _ in range(dim)]
             dx = rng.choice([0.125, 0.01, 1.0, 0.3])
             spec["grid"] = {"origin": [rng.choice([0.0, dx / 2, -1.5, 10.0]) for _ in range(dim)], "dx": dx, "size": size}
+            if rng.random() < 0.2:
+                spec["grid"]["origin"][rng.randrange(dim)] = rng.choice([2000.0, -3.0e5])  # a domain far from the coordinate origin along one axis
             ne = rng.randint(1 if cls == "EulerianFieldIO" else 0, 3)
             for _ in range(ne):
                 spec["efields"].append({"name": names.pop(), "kind": rng.choice(["scalar", "vector"])})
@@ -138,7 +140,11 @@ class C17(Check):
         m = rng.choice(choices)
         if m == "origin":
             ax = rng.randrange(dim)
-            s["grid"]["origin"][ax] += rng.choice([1.0, -2.0, 0.5])
+            if abs(s["grid"]["origin"][ax]) <= 10.0 and rng.random() < 0.5:
+                # half a cell off on an axis whose origin is O(1): far above allclose's per-component tolerance
+                s["grid"]["origin"][ax] += 0.5 * s["grid"]["dx"]
+            else:
+                s["grid"]["origin"][ax] += rng.choice([1.0, -2.0, 0.5]) * max(1.0, abs(s["grid"]["origin"][ax]) * 1e-3)
         elif m == "dx":
             s["grid"]["dx"] *= rng.choice([2.0, 0.5, 1.25])
         elif m == "size":
@@ -165,7 +171,8 @@ class C17(Check):
             # its files look alike to a reader of the first registration
             twin = copy.deepcopy(ios[0])
             if rng.random() < 0.5:
-                twin["grid"]["origin"][rng.randrange(dim)] += rng.choice([1.0, -2.0, 0.5])
+                ax = rng.randrange(dim)
+                twin["grid"]["origin"][ax] += rng.choice([1.0, -2.0, 0.5]) * max(1.0, abs(twin["grid"]["origin"][ax]) * 1e-3)
             else:
                 twin["grid"]["dx"] *= rng.choice([2.0, 0.5, 1.25])
             twin["twin_of"] = 0
@@ -216,20 +223,37 @@ class C17(Check):
 
     # ------------------------------------------------------------------ building real IO objects
     @staticmethod
-    def _alloc(spec, dim, real_t, fill=None):
+    def _empty(shape, dtype, layout, fill):
+        """An array of `shape` in the requested memory layout (all are legal numpy arrays)."""
+        if layout == "F":
+            a = np.full(shape, fill, dtype=dtype, order="F")
+        elif layout == "window":
+            big = np.full(tuple(n + 2 for n in shape), -7.25, dtype=dtype)
+            a = big[tuple(slice(1, 1 + n) for n in shape)]
+            a[...] = fill
+        elif layout == "component_last" and len(shape) >= 2:
+            big = np.full((*shape[1:], shape[0]), fill, dtype=dtype)
+            a = np.moveaxis(big, -1, 0)
+        else:
+            a = np.full(shape, fill, dtype=dtype)
+        return a
+
+    @classmethod
+    def _alloc(cls, spec, dim, real_t, fill=None):
         """Allocate the arrays a registration refers to. Returns dict key -> ndarray."""
         arrs = {}
+        layout = spec.get("layout", "C")
         if spec["grid"]:
             size = tuple(spec["grid"]["size"])
             for f in spec["efields"]:
                 shape = size if f["kind"] == "scalar" else (dim, *size)
-                arrs[("e", f["name"])] = np.full(shape, SENTINEL if fill is None else fill, dtype=real_t)
+                arrs[("e", f["name"])] = cls._empty(shape, real_t, layout, SENTINEL if fill is None else fill)
         lag_t = np.float64 if spec.get("lag_f64") else real_t  # body arrays are float64 whatever the flow precision
         for gi, g in enumerate(spec["lgrids"]):
-            arrs[("g", gi)] = np.full((dim, g["n"]), SENTINEL, dtype=lag_t)
+            arrs[("g", gi)] = cls._empty((dim, g["n"]), lag_t, layout, SENTINEL)
             for fi, f in enumerate(g["fields"]):
                 shape = (g["n"],) if f["kind"] == "scalar" else (dim, g["n"])
-                arrs[("l", gi, fi)] = np.full(shape, SENTINEL, dtype=lag_t)
+                arrs[("l", gi, fi)] = cls._empty(shape, lag_t, layout, SENTINEL)
         return arrs
 
     @staticmethod
@@ -365,6 +389,8 @@ class C17(Check):
                 res.probe("rod_io")
             if specs[i]["cls"] == "EulerianFieldIO":
                 res.probe("eulerian_io")
+            if specs[i].get("layout", "C") != "C":
+                res.probe("non_c_contiguous_registered_arrays")
             if any(g["n"] == dim and any(f["kind"] == "vector" for f in g["fields"]) for g in specs[i]["lgrids"]):
                 res.probe("markers_eq_dim")
             if specs[i]["lgrids"] and not any(g["fields"] for g in specs[i]["lgrids"]):
@@ -521,14 +547,18 @@ class C17(Check):
                 if any(v is None for v in pa.values()) or "params" in T["deleted"]:
                     params_ok = False
                 else:
-                    mine = {"origin": np.array(spec["grid"]["origin"], dtype=float), "dx": np.full(dim, spec["grid"]["dx"]), "grid_size": np.array(spec["grid"]["size"])}
-                    if spec["cls"] == "EulerianFieldIO" or wspec["cls"] == "EulerianFieldIO":
-                        # origin / dx derived from a real_t position field: compare with tolerance like the statement's consumer would
-                        params_ok = all(np.shape(pa[k]) == mine[k].shape and np.allclose(mine[k], pa[k], rtol=1e-5, atol=1e-6) for k in mine)
-                    else:
-                        params_ok = all(np.shape(pa[k]) == mine[k].shape and np.array_equal(mine[k], pa[k]) for k in mine)
+                    # the reader's own definition of its grid (public attributes); for EulerianFieldIO it is
+                    # derived from a real_t position field, exactly as the writer derived the stored one
+                    mine = {"origin": np.asarray(io.eulerian_origin, dtype=float), "dx": np.asarray(io.eulerian_dx, dtype=float), "grid_size": np.asarray(io.eulerian_grid_size)}
+                    same_shape = all(np.shape(pa[k]) == mine[k].shape for k in mine)
+                    params_ok = same_shape and all(np.array_equal(mine[k], np.asarray(pa[k], dtype=mine[k].dtype)) for k in mine)
                     if not params_ok:
-                        params_far = True
+                        # "differ" in the sense of the statement: far above any rounding-level tolerance
+                        def far(a, b):
+                            a, b = np.asarray(a, dtype=float), np.asarray(b, dtype=float)
+                            return bool(np.any(np.abs(a - b) > 100.0 * (1e-8 + 1e-5 * np.maximum(np.abs(a), np.abs(b)))))
+
+                        params_far = (not same_shape) or any(far(mine[k], pa[k]) for k in mine)
             has_time = ("", "time") in F.attrs
             nothing_registered = not items
             grids_only = spec["cls"] == "IO" and spec["lgrids"] and not any(g["fields"] for g in spec["lgrids"])
@@ -717,6 +747,10 @@ class C17(Check):
                 c["ops"][oi]["time"] = 0.0
                 yield c
         for si, s in enumerate(program["specs"]):
+            if s.get("layout", "C") != "C":
+                c = copy.deepcopy(program)
+                c["specs"][si]["layout"] = "C"
+                yield c
             for fi in range(len(s["efields"])):
                 c = copy.deepcopy(program)
                 del c["specs"][si]["efields"][fi]
